@@ -90,6 +90,34 @@ class SchedLock:
         return False
 
 
+class ParkSet(set):
+    """Stands in for `_known_dirs` / `_missing_dirs` of pypyr.moduleloader: a worker thread hands control back
+    BEFORE every membership test, add and discard, so that another thread can run between any two operations on
+    the sets (they are read and written outside `_sys_path_lock`). The operation itself stays the built-in one."""
+
+    def __init__(self, sched, name):
+        super().__init__()
+        self.sched = sched
+        self.name = name
+
+    def _park(self, what):
+        if self.sched.tid() is not None:
+            self.sched.park('setop:' + self.name + '.' + what)
+
+    def __contains__(self, x):
+        self._park('in')
+        return set.__contains__(self, x)
+
+    def add(self, x):
+        self._park('add')
+        return set.add(self, x)
+
+    def discard(self, x):
+        self._park('discard')
+        return set.discard(self, x)
+
+
+
 class Sched:
     """Controller + workers. `programs[t]` is a list of callables `op(t, i)` executed in order by
     worker t; the result (or exception) of each is recorded in `self.results[t]`."""
@@ -109,6 +137,7 @@ class Sched:
         self.results = [[] for _ in range(self.n)]
         self.threads = []
         self.turns = 0
+        self.stuck = []
 
     # ---- worker side -----------------------------------------------------
     def tid(self):
@@ -213,6 +242,8 @@ class Sched:
             for th in self.threads:
                 th.join(self.timeout)
             return 'done'
+        # the workers that can never move again (read before they are unwound)
+        self.stuck = [t for t in range(self.n) if not self.done[t]]
         if finish:
             self.abandon()
             return 'deadlock'
@@ -247,6 +278,10 @@ _LIB = {}
 
 class CaseTimeout(BaseException):
     """A single operation of a layered session did not return in time."""
+
+
+class ReentrantGet(BaseException):
+    """A creator looked up the cache it is creating for (would dead-lock on the real lock)."""
 
 
 def _lib_dir():
@@ -312,6 +347,30 @@ class StackRig:
                 self.counts['step'] += 1
             return old_lts(name)
         self._patch(scm, 'load_the_step', load_the_step)
+        # nesting of look-ups: which cache's creator looks up which cache; a creator that looks up the cache it is
+        # creating for would wait for ever for its own (non re-entrant) lock: turned into an exception + a record
+        import pypyr.cache.cache as ccm
+        self.nesting = set()
+        self.reentries = []
+        self._inflight = threading.local()
+        rig = self
+        real_get = ccm.Cache.get
+
+        def watched_get(cache, key, creator):
+            stack = getattr(rig._inflight, 'stack', None)
+            if stack is None:
+                stack = rig._inflight.stack = []
+            if any(c is cache for c in stack):
+                rig.reentries.append((rig.cache_kind(cache), repr(key)[:80]))
+                raise ReentrantGet(f'creator of {rig.cache_kind(cache)} looks up the same cache (key {key!r})')
+            if stack:
+                rig.nesting.add((rig.cache_kind(stack[-1]), rig.cache_kind(cache)))
+            stack.append(cache)
+            try:
+                return real_get(cache, key, creator)
+            finally:
+                stack.pop()
+        self._patch(ccm.Cache, 'get', watched_get)
         self.clients = {}
         import logging
         self.log = logging.getLogger('pypyr')
@@ -322,6 +381,19 @@ class StackRig:
         config.no_cache = False
         pypyr.cache.admin.clear_all()
         config.no_cache = bool(case.get('noCache'))
+
+    def cache_kind(self, cache):
+        import pypyr.cache.backoffcache as bc
+        import pypyr.cache.filecache as fc
+        import pypyr.cache.namespacecache as nc
+        import pypyr.cache.parsercache as pc
+        lcm, scm = self.mods[0], self.mods[1]
+        for name, inst in (('file_cache', fc.file_cache), ('loader_cache', lcm.loader_cache), ('step_cache', scm.step_cache),
+                           ('contextparser_cache', pc.contextparser_cache), ('backoff_cache', bc.backoff_cache),
+                           ('pystring_namespace_cache', nc.pystring_namespace_cache)):
+            if cache is inst:
+                return name
+        return 'pipeline_cache' if type(cache).__name__ == 'Cache' else type(cache).__name__
 
     def _counting(self, fn, what):
         def wrapper(*a, **k):
@@ -488,9 +560,9 @@ class StackRig:
         return None
 
 
-def run_stack_impl(case):
+def run_stack_impl(case, info=None):
     """Run a layered session on the real pypyr. Returns the list of run observations; a hang becomes
-    the observation {'timeout': i}."""
+    the observation {'timeout': i}. `info` (a dict) receives the nesting of cache look-ups seen."""
     def on_alarm(signum, frame):
         raise CaseTimeout()
     use_alarm = threading.current_thread() is threading.main_thread()
@@ -519,4 +591,7 @@ def run_stack_impl(case):
             signal.setitimer(signal.ITIMER_REAL, 0)
             signal.signal(signal.SIGALRM, old)
         if rig is not None:
+            if info is not None:
+                info['nesting'] = sorted(rig.nesting)
+                info['reentries'] = list(rig.reentries)
             rig.close()
